@@ -67,7 +67,7 @@ func c14Pure(tier string) *PureResult {
 				add(fmt.Sprintf("group name %q rejected although it is unambiguous", g))
 				continue
 			}
-			if !strings.HasPrefix(string(key), helpers.Prefix) {
+			if !strings.HasPrefix(string(key), reservedPrefix) {
 				add(fmt.Sprintf("checkpoint key %q is not under the reserved prefix", key))
 			}
 			if !helpers.IsMetadata(models.DcpMutation{DcpMutation: &gocbcore.DcpMutation{Key: key}}) {
@@ -95,8 +95,8 @@ func c14Pure(tier string) *PureResult {
 		keys = append(keys, next...)
 		fr = next
 	}
-	p, tp := helpers.Prefix, helpers.TxnPrefix
-	keys = append(keys, p, p[:len(p)-1], p+"x", "x"+p, strings.ToUpper(p), tp, tp[:len(tp)-1], tp+"1", "x"+tp, "_connector:cbg", "_connector:cbgox", "_connector:", "_tx", "\xff\xfe", p+"\x00")
+	p, tp := reservedPrefix, txnPrefix // as documented, not the library's constants
+	keys = append(keys, p, p[:len(p)-1], p+"x", "x"+p, strings.ToUpper(p), tp, tp[:len(tp)-1], tp+"1", tp+"client-record", tp+"atr-0-#1", "x"+tp, "_connector:cbg", "_connector:cbgox", "_connector:", "_tx", "\xff\xfe", p+"\x00")
 	for _, k := range keys {
 		want := strings.HasPrefix(k, p) || strings.HasPrefix(k, tp)
 		evs := []interface{}{
@@ -174,7 +174,7 @@ func loopMain(p LoopParams) {
 	// absorbing a library-internal key must not flag the vBucket (or the stream) for saving
 	var markBefore, flagBefore bool
 	c.OnDeliver = func(pk *gocbcore.SimPacket, after bool) {
-		if pk.Kind != "mutation" || !strings.HasPrefix(string(pk.Key), helpers.Prefix) {
+		if pk.Kind != "mutation" || !strings.HasPrefix(string(pk.Key), reservedPrefix) {
 			return
 		}
 		var mark, flag bool
@@ -290,14 +290,14 @@ func loopMain(p LoopParams) {
 		}
 		// the consumer never sees a reserved key
 		for _, d := range e.Cons.Events {
-			if strings.HasPrefix(d.Key, helpers.Prefix) || strings.HasPrefix(d.Key, helpers.TxnPrefix) {
+			if strings.HasPrefix(d.Key, reservedPrefix) || strings.HasPrefix(d.Key, txnPrefix) {
 				vrt.Failf("consumer was shown library-internal key %q after %v", d.Key, hist)
 			}
 		}
 	}
 	// every KV write went to a key the library filters
 	for _, w := range c.Writes {
-		if !strings.HasPrefix(w.Key, helpers.Prefix) {
+		if !strings.HasPrefix(w.Key, reservedPrefix) {
 			vrt.Failf("library wrote key %q which is outside the reserved prefix", w.Key)
 		}
 	}
@@ -308,7 +308,7 @@ func loopMain(p LoopParams) {
 		// library-internal key or an acknowledged user event
 		var want uint64
 		for _, pk := range c.Vb[vb].Log {
-			if pk.Kind == "mutation" && strings.HasPrefix(string(pk.Key), helpers.Prefix) && pk.Seq > want {
+			if pk.Kind == "mutation" && strings.HasPrefix(string(pk.Key), reservedPrefix) && pk.Seq > want {
 				want = pk.Seq
 			}
 		}
